@@ -409,7 +409,7 @@ class Gen:
     """A matrix generator.  kind: 'real' (involution = transpose) or 'quat'
     (involution = conjugate transpose).  flags: unitary / symmetric."""
 
-    __slots__ = ("name", "kind", "unitary", "symmetric")
+    __slots__ = ("name", "kind", "unitary", "symmetric", "isometry")
 
     def __init__(self, name, kind="real", unitary=False, symmetric=False):
         self.name, self.kind, self.unitary, self.symmetric = name, kind, unitary, symmetric
@@ -526,13 +526,31 @@ class NC:
 
 
 class NCContext:
+    """Generator table with rewrite rules used by the normal form:
+       unitary U:   U U' -> 1 and U' U -> 1
+       isometry U:  U' U -> 1 only (orthonormal columns)
+       inverse pair (R, Rinv): R Rinv -> 1, Rinv R -> 1 (same adjoint flag)
+       symmetric S: S' -> S"""
+
     def __init__(self):
         self.gens = {}
+        self.inverse_of = {}
+        self._n = 0
 
     def gen(self, name, **kw):
+        iso = kw.pop("isometry", False)
         g = Gen(name, **kw)
+        g.isometry = iso
         self.gens[name] = g
         return NC({((name, False),): Poly.const(1)}, self)
+
+    def fresh(self, base, **kw):
+        self._n += 1
+        return self.gen(f"{base}#{self._n}", **kw)
+
+    def inverse_pair(self, a, b):
+        self.inverse_of[a] = b
+        self.inverse_of[b] = a
 
     def one(self):
         return NC({(): Poly.const(1)}, self)
@@ -545,18 +563,24 @@ class NCContext:
         return bool(g and g.symmetric)
 
     def reduce(self, w):
-        """cancel U U' and U' U for unitary generators"""
         changed = True
         while changed:
             changed = False
             for i in range(len(w) - 1):
                 (n1, a1), (n2, a2) = w[i], w[i + 1]
+                kill = False
                 if n1 == n2 and a1 != a2:
                     g = self.gens.get(n1)
                     if g and g.unitary:
-                        w = w[:i] + w[i + 2:]
-                        changed = True
-                        break
+                        kill = True
+                    elif g and getattr(g, "isometry", False) and a1 and not a2:
+                        kill = True
+                elif self.inverse_of.get(n1) == n2 and a1 == a2:
+                    kill = True
+                if kill:
+                    w = w[:i] + w[i + 2:]
+                    changed = True
+                    break
         return w
 
 
